@@ -5,6 +5,7 @@ import (
 	"os"
 	"path/filepath"
 	"sort"
+	"strconv"
 	"strings"
 	"unicode"
 )
@@ -490,6 +491,8 @@ type Clause struct {
 	Text string
 	E    Expr
 	Name string // optional label: "ensures [label] expr"
+	At   string // return-statement anchor (source snippet)
+	AtN  int    // which of the matching returns (0 = all)
 }
 
 type WitnessBinding struct {
@@ -529,6 +532,7 @@ type Contract struct {
 	MayPanic   bool
 	NoSafety   bool // skip implicit panic obligations (stated in evidence)
 	Wraps      bool // signed +,- wrap exactly (no overflow obligations)
+	Pure       bool // (assumed contracts) deterministic function of the argument values
 	Witness    map[string][]WitnessBinding // ensures label -> witnesses for its existentials
 	Loops      []*LoopSpec
 	Ghost      []Param // ghost parameters (lemma-style universally quantified inputs)
@@ -664,11 +668,25 @@ func (db *SpecDB) loadFile(path, pkg string, assumed bool) error {
 				txt = strings.TrimSpace(txt[k+1:])
 			}
 		}
+		// "[label @ snippet #n]": the clause speaks about the return statement(s)
+		// whose source line contains snippet (the n-th such, if given); it may
+		// mention the function's local variables as they are at that return.
+		at, atN := "", 0
+		if k := strings.Index(name, "@"); k >= 0 {
+			at = strings.TrimSpace(name[k+1:])
+			name = strings.TrimSpace(name[:k])
+			if h := strings.LastIndex(at, "#"); h >= 0 {
+				if n, err := strconv.Atoi(strings.TrimSpace(at[h+1:])); err == nil {
+					atN = n
+					at = strings.TrimSpace(at[:h])
+				}
+			}
+		}
 		e, err := ParseExpr(txt)
 		if err != nil {
 			return Clause{}, fmt.Errorf("%s:%d: %v", path, rc.line, err)
 		}
-		return Clause{Text: txt, E: e, Name: name}, nil
+		return Clause{Text: txt, E: e, Name: name, At: at, AtN: atN}, nil
 	}
 	for _, rc := range raws {
 		switch rc.kw {
@@ -741,6 +759,8 @@ func (db *SpecDB) loadFile(path, pkg string, assumed bool) error {
 		case "pure":
 			if curM != nil {
 				curM.Pure = true
+			} else if curC != nil {
+				curC.Pure = true
 			}
 		case "property":
 			var ids []string
